@@ -121,8 +121,8 @@ def _plan_conversion(start: Unit, end: Unit) -> Plan:
     plan += _cancel_factors(end_factors)
     plan += _cancel_factors(start_factors, invert=True)
 
-    assert not start_factors
-    assert not end_factors
+    if start_factors or end_factors:
+        raise ConversionNotFound(f"No conversion from {start} to {end}")
 
     return _inline_paths(plan)
 
